@@ -145,6 +145,17 @@ def random_pq(rng, n):
     return {"level": "pq", "min": 0, "tsbase": rng.choice(TSBASES), "steps": steps}
 
 
+def stall_pq(rng, k):
+    """A consumer that has stalled: k > 65535 packets are buffered (more than the uint16 length counter holds), then the
+    queue is cleared and used again - nothing of the old content may come back."""
+    n0 = rng.choice([70, 40000, 65535])
+    q = lambda a, n=0, ts=0: {"a": a, "n": n % M, "ts": ts, "b": False}
+    steps = [q("qpush", n0 + 3, 5), dict(q("qbulk", n0, 7), k=k), q("qclear"),
+             q("qfind", n0 - 9), q("qpop"), q("qpush", 11, 3), q("qpush", 10, 3), q("qpopts", 0, 7), q("qpop"), q("qpop"), q("qpop"),
+             dict(q("qbulk", 500, 9), k=300), q("qclear"), q("qpop")]
+    return {"level": "pq", "min": 0, "tsbase": rng.choice(TSBASES), "steps": steps}
+
+
 def random_icpt(rng, n):
     """Interceptor: each read pushes one packet and (once emitting) pops at the head. Default minimum start 50."""
     pos = rng.choice([0, 65500, 65480, rng.randrange(M)])
@@ -206,6 +217,7 @@ def run(ctx):
         rs.append(random_pq(rng, ln))
     for _ in range(nic):
         rs.append(random_icpt(rng, rng.choice([70, 130, 260])))
+    rs.append(stall_pq(rng, rng.choice([65540, 65536 + 300])))
     if q:
         run_batch(ctx, scripts + rs, "G+T")          # one Go run and one TLC run keep the quick tier short
     else:
@@ -219,7 +231,8 @@ def run(ctx):
         "the TLA+ module JitterBuffer is the reading of the property; behaviour the statement is silent about (list order = raw "
         "uint16 order for PriorityQueue.Pop/PopAtTimestamp, PopAtSequence advances the head by one, SetPlayoutHead, Clear(true) "
         "keeps the playout head and restores minStartCount 50, listener events) is modelled as the code does it",
-        "sequential use (one caller); fewer than 65536 packets buffered (Length is a uint16)",
+        "sequential use (one caller); more than 65535 buffered packets only at the PriorityQueue level (one macro-event for the "
+        "pushes; Length() is a uint16 and is expected modulo 2^16, the list itself is not)",
         "packet identity = Go pointer identity tracked by the harness, repeated in the payload; list reachability and prev-pointer "
         "consistency are read from the unexported next/prev pointers",
         "interceptor level: default minimum start 50, caller buffers of exactly the packet size (the C02 suspect about parsing the "
